@@ -113,7 +113,7 @@ def there_follows(ctx):
     return _emit(d)
 
 
-@rule("PARSE-DISPATCH", ["C07", "C17"], floor=14)
+@rule("PARSE-DISPATCH", ["C07", "C17", "C09", "C11", "C12", "C19"], floor=14)
 def parse_dispatch(ctx):
     """parse_terminal dispatch table: $ ^ -> Eol/Bol under XPath (else atom); . -> class; [ -> class expression;
     ( -> group; ) ] ? + { * -> Error::Syntax; \\ -> escape (back-reference / class / literal); anything else an atom."""
@@ -176,7 +176,15 @@ def parse_dispatch(ctx):
     extra = seen - set("$^.[()|]?+{*\\") - {"other"}
     for ch in sorted(extra):
         d["extra-arm|%s" % ch] = [False, "parse_terminal treats '%s' specially; the grammar has no such terminal" % ch, b.loc()]
-    return _emit(d)
+    out = _emit(d)
+    # what an arm builds also bears on the property of the construct it builds: a class expression must become a
+    # CharClass over exactly its set (C09; under flag i an Atom would compare case-blind what the class did not
+    # close, C11), the dot a class (C12), an escape a back-reference (C19)
+    scope = {"class": ["C09", "C11"], "dot": ["C12"], "anchor": ["C12"], "escape": ["C19", "C09"]}
+    for i_ in out:
+        extra_p = next((v for k, v in scope.items() if i_.key == k or i_.key.startswith(k + "|")), [])
+        i_.props = ["C07", "C17"] + extra_p
+    return out
 
 
 @rule("PARSE-GROUP", ["C07", "C03", "C19", "C17"], floor=8)
